@@ -5,7 +5,10 @@ D1 guard-use: the Box-Cox transforms reject exactly through a positivity test of
 D2 softmax stability: every exp argument is (element - maximum of the input).
 D3 logistic has values in [0,1] and is non-decreasing (interval/monotonicity evaluation of its closed form).
 D4 softmax normalisation: each output is e_i / sum(e) with the same exponential expression in numerator and sum.
-Not decided: binom_coeff exactness/overflow guard, logistic(-x) = 1 - logistic(x) to rounding."""
+D5 binomial coefficient: multiplicative recurrence C(n,i) = C(n,i-1)*(n-i+1)/i over i in 1..=min(k,n-k), evaluated so that the
+   running coefficient is divided before it is multiplied (no 64-bit product of the bare accumulator: C(n,i)*i may exceed 2^64
+   although C(n,k) fits), split form q*m + r*m/i with one common m = n-i+1.
+Not decided: logistic(-x) = 1 - logistic(x) to rounding."""
 from ..ir import tag, show, short, subterms, is_f64_method, f64_method_name
 from ..elem import ElemEngine, show_expr, has_top, top_reasons
 from ..structs import canon_guard, show_guard
@@ -206,6 +209,7 @@ def run(prog, rep, tier, repo):
     rep.floor('logistic-range', 1, 'logistic')
     for kk in eng.visited:
         rep.touch(kk)
+    d5_binom(prog, rep)
     return {}
 
 
@@ -237,3 +241,122 @@ def _is_max_reduction(e):
 
 def _is_shifted(arg):
     return arg[0] == 'b' and arg[1] == 'Sub' and arg[2] == ('sym', 'SELF') and _is_max_reduction(arg[3])
+
+
+# =============================================================================== D5
+def _first_overflow_witness():
+    """smallest (n, k) with C(n,k) < 2^64 <= C(n,k) * k  (pure arithmetic, for the report text)"""
+    from math import comb
+    for n in range(2, 80):
+        for k in range(1, n // 2 + 1):
+            c = comb(n, k)
+            if c < 2 ** 64 and any(comb(n, i) * i >= 2 ** 64 for i in range(1, k + 1)):
+                return n, k
+    return None
+
+
+def d5_binom(prog, rep):
+    from ..poly import poly, peq, padd, psub
+    k = 'functions::combinatorial::binom_coeff'
+    f = prog.func(k)
+    key = 'binom:' + k
+    if f is None:
+        rep.viol('binom', key, 'function disappeared')
+        rep.floor('binom', 1, 'binom_coeff')
+        return
+    rep.touch(k)
+    n_, k_ = ('arg', 1, f.names.get(1)), ('arg', 2, f.names.get(2))
+    loops = [li for li in f.loop_info() if li['item'] is not None]
+    acc = None
+    upd = None
+    for s in f.stores():
+        if tag(s.target) == 'local' and s.target[1] != 0 and s.target in subterms(s.value) and any(s.bb in li['blocks'] for li in loops):
+            acc, upd = s.target, s
+    problems = []
+    undec = []
+    if acc is None:
+        rep.undecided('binom', key, 'no running coefficient found (not the multiplicative recurrence)', site_of(f.body), proof=False)
+        rep.floor('binom', 1, 'binom_coeff')
+        return
+    L = [li for li in loops if upd.bb in li['blocks']][0]
+    i = L['item']
+    # ---- refutation: 64-bit product with the bare accumulator (also through checked/wrapping/saturating/overflowing mul)
+    bare = []
+    for t in [x for s in f.stores() for x in subterms(s.value)] + [x for c in f.calls() for a in c.args for x in subterms(a)] + \
+            [tuple(['call', c.path, c.args, None]) for c in f.calls() if c.path]:
+        if tag(t) == 'bin' and t[1] in ('Mul', 'MulWithOverflow', 'MulUnchecked') and t[4] in ('u64', 'usize', 'i64') and acc in (t[2], t[3]):
+            bare.append(show(t)[:60])
+        if tag(t) == 'call' and t[1] and short(t[1]).endswith('_mul') and 'u128' not in t[1] and acc in t[2]:
+            bare.append(show(t)[:60])
+    if bare:
+        w = _first_overflow_witness()
+        problems.append('the running coefficient is multiplied before it is divided (%s): the intermediate C(n,i)*i must then fit in 64 bits although only '
+                        'C(n,k) has to; first affected value C(%d,%d)' % (bare[0], w[0], w[1]))
+    # ---- proof of the recognised split form
+    v = upd.value
+    m_want = padd(psub(poly(n_), poly(i)), {(): 1})
+    form = None
+    if tag(v) == 'bin' and v[1] == 'Add':
+        for qa, ra in ((v[2], v[3]), (v[3], v[2])):
+            # qa = (c / i) * m ; ra = ((c % i) * m) / i
+            if tag(qa) == 'bin' and qa[1] == 'Mul' and tag(ra) == 'bin' and ra[1] == 'Div' and ra[3] == i and tag(ra[2]) == 'bin' and ra[2][1] == 'Mul':
+                qs = [x for x in (qa[2], qa[3]) if x == ('bin', 'Div', acc, i, qa[4])]
+                rs = [x for x in (ra[2][2], ra[2][3]) if x == ('bin', 'Rem', acc, i, qa[4])]
+                if len(qs) == 1 and len(rs) == 1:
+                    m1 = qa[3] if qa[2] == qs[0] else qa[2]
+                    m2 = ra[2][3] if ra[2][2] == rs[0] else ra[2][2]
+                    form = (m1, m2)
+    if form is not None:
+        m1, m2 = form
+        if not (peq(poly(m1), m_want) and peq(poly(m2), m_want)):
+            problems.append('split update q*m1 + r*m2/i uses m1 = %s, m2 = %s; both must be n - i + 1' % (show(m1)[:40], show(m2)[:40]))
+    elif not bare:
+        undec.append('update %s is not the recognised split form' % show(v)[:100])
+    # range 1..=min(k, n-k), start value 1, result
+    rng = i[2]
+    hi = rng[2] if tag(rng) in ('range', 'rangeincl') else None
+    okr = tag(rng) == 'rangeincl' or 'RangeInclusive' in show(rng) or '..=' in show(rng)
+    lo_ok = tag(rng[1]) == 'const' and rng[1][2] == 1
+    if not (okr and lo_ok):
+        problems.append('level loop is %s, expected 1..=min(k, n-k)' % show(rng)[:40])
+    nk_stores = [s for s in f.stores() if s.target == hi] if hi is not None else []
+    vals = sorted(show(s.value) for s in nk_stores)
+    if hi == k_:
+        pass        # no symmetry reduction: still exact (only slower / earlier overflow bail-out is checked above)
+    elif sorted(vals) != sorted([show(k_), show(('bin', 'Sub', n_, k_, 'u64'))]):
+        undec.append('loop bound %s is not min(k, n-k)' % vals)
+    else:
+        # the n-k branch must be taken when k > n-k
+        for s in nk_stores:
+            if s.value != k_:
+                g = f.guards().get(s.bb, [])
+                if not any(tag(c) == 'bin' and ((c[1] == 'Gt' and c[2] == k_ and c[3] == s.value and vv is True) or (c[1] == 'Lt' and c[2] == s.value and c[3] == k_ and vv is True)
+                                                or (c[1] == 'Ge' and c[2] == k_ and c[3] == s.value and vv is True) or (c[1] == 'Le' and c[2] == s.value and c[3] == k_ and vv is True)) for c, vv in g):
+                    problems.append('the bound is replaced by n - k under %s, not when k > n - k' % [show(c)[:30] for c, _ in g])
+    init = [s for s in f.stores() if s.target == acc and s is not upd]
+    if not (len(init) == 1 and tag(init[0].value) == 'const' and init[0].value[2] == 1):
+        problems.append('running coefficient does not start at 1')
+    # early returns
+    for d in f._defs.get(0, []):
+        if d[0] != 'assign':
+            continue
+        val = f.rvalue_term(d[3], d[1])
+        if val == acc:
+            continue
+        if tag(val) == 'const' and val[2] == 0:
+            g = [(c, vv) for c, vv in f.guards().get(d[1], []) if tag(c) == 'bin' and acc in subterms(c)]
+            okg = len(g) == 1 and g[0][1] is True and g[0][0][1] == 'Gt' and g[0][0][2] == ('bin', 'Div', acc, i, 'u64') and \
+                tag(g[0][0][3]) == 'bin' and g[0][0][3][1] == 'Div' and tag(g[0][0][3][2]) == 'const' and g[0][0][3][2][2] == 2 ** 64 - 1 and g[0][0][3][3] == hi
+            if okg:
+                continue      # q > MAX/nk implies C(n,i) >= q*nk > MAX: fires only when the value does not fit
+            if not bare:
+                undec.append('overflow bail-out %s not recognised' % [show(c)[:50] for c, _ in g])
+        else:
+            problems.append('returns %s' % show(val)[:40])
+    if problems:
+        rep.viol('binom', key, '; '.join(problems), site_of(upd.span) or site_of(f.body))
+    elif undec:
+        rep.undecided('binom', key, '; '.join(undec), site_of(f.body), proof=False)
+    else:
+        rep.ok('binom', key, 'C(n,i) = (c/i)*m + (c%i)*m/i with m = n-i+1 for i in 1..=min(k,n-k), c0 = 1; bail-out only on q > MAX/nk')
+    rep.floor('binom', 1, 'binom_coeff')
